@@ -1,6 +1,6 @@
 use std::env;
 use std::os::unix::prelude::OsStrExt;
-use std::path::{Path, PathBuf};
+use std::path::{Component, Path, PathBuf};
 
 use crate::systemd_unit::SystemdUnitFile;
 
@@ -51,10 +51,15 @@ impl PathBufExt<PathBuf> for PathBuf {
             if element.as_os_str().is_empty() || element.as_os_str() == "." {
                 continue;
             } else if element.as_os_str() == ".." {
-                if normalized.components().count() > 0 {
-                    normalized.pop();
-                } else {
-                    normalized.push(element);
+                match normalized.components().next_back() {
+                    // ".." removes the preceding name ...
+                    Some(Component::Normal(_)) => {
+                        normalized.pop();
+                    }
+                    // ... never climbs above the root ...
+                    Some(Component::RootDir) => {}
+                    // ... and accumulates at the start of a relative path ("../.." stays "../..")
+                    _ => normalized.push(element),
                 }
             } else {
                 normalized.push(element);
